@@ -60,7 +60,16 @@ func suiteRead(t *testing.T, cfg cfgT) {
 			pt := tupleToProto(tu)
 			var code int
 			var desc string
-			switch k := hr.intn(21); k {
+			switch k := hr.intn(23); k {
+			case 21: // the write service called on the SYNTAX gRPC server (insert of a fresh relationship)
+				_, err := rts.NewWriteServiceClient(oconn).TransactRelationTuples(ctx, &rts.TransactRelationTuplesRequest{RelationTupleDeltas: []*rts.RelationTupleDelta{{Action: rts.RelationTupleDelta_ACTION_INSERT, RelationTuple: pt}}})
+				code, desc = grpcCode(err), "grpc Transact on syntax server"
+			case 22: // ... and a delete-by-query that would remove stored relationships
+				_, err := rts.NewWriteServiceClient(oconn).DeleteRelationTuples(ctx, &rts.DeleteRelationTuplesRequest{RelationQuery: &rts.RelationQuery{Namespace: &tu.Namespace}})
+				if err != nil && hr.chance(1, 2) {
+					_, err = rts.NewWriteServiceClient(e.rconn).DeleteRelationTuples(ctx, &rts.DeleteRelationTuplesRequest{RelationQuery: &rts.RelationQuery{Namespace: &tu.Namespace}})
+				}
+				code, desc = grpcCode(err), "grpc Delete on syntax or read server"
 			case 16: // write-shaped requests sent to the READ API: whatever the answer, nothing may be stored
 				code, _ = rest(e.read, "PUT", "/admin/relation-tuples", body)
 				desc = "PUT on read API"
